@@ -469,6 +469,19 @@ Section EvalAuth.
   Qed.
 End EvalAuth.
 
+(* the oracle evaluated on composed cases is the conclusion of [only_current_authorizer] *)
+Lemma compose_ok_iff : forall sig_ok pq_ok H l g st, length l = length g ->
+  (compose_ok sig_ok pq_ok H st l g = true <->
+   forall j s, nth_error l j = Some s ->
+     accept_ok sig_ok pq_ok H (current_authorizer (state_before st g j) (t_sender s)) s).
+Proof.
+  intros sig_ok pq_ok H. induction l as [|s l IH]; intros [|t g] st L; try discriminate; cbn [compose_ok].
+  - split; [intros _ [|j] s; discriminate | reflexivity].
+  - injection L as L. rewrite andb_true_iff, accept_ok_b_iff, (IH g (apply_rekey st t) L). split.
+    + intros [A R] [|j] s' Ns; [injection Ns as <-; exact A | exact (R j s' Ns)].
+    + intro R. split; [exact (R 0%nat s eq_refl) | intros j s' Ns; exact (R (S j) s' Ns)].
+Qed.
+
 (* ---- both halves together ---- *)
 Theorem only_current_authorizer :
   forall sig_ok pq_ok (H : bytes -> bytes) (Hk : N -> bytes -> bytes) p maxgroup st fees l g st',
